@@ -137,7 +137,7 @@ class WaitGate(raw_types.Gate):
         )
 
     def _value_equality_values_(self) -> Any:
-        return self.duration
+        return self.duration, self._qid_shape
 
 
 def wait(
